@@ -420,4 +420,503 @@ def asciiReal (parse : Bytes → Option Nat) (declared : Nat) : Codec Nat where
   size _ := declared
   ok n := (doubleParts n).isSome ∧ (asciiRealField n).length = 24
 
+/-! ## bookkeeping around the records -/
+
+/-- AtfluxStream.getEnergyGroupIndex / NafluxStream._getEnergyGroupIndex: `ng - g - 1` (the forward files'
+RtfluxStream / NhfluxStream methods are the identity) -/
+def revGroup (ng g : Int) : Int := ng - g - 1
+
+/-- IsotxsIO._computeNumIsotxsRecords: the 4D and 5D records, the 6D record when chiFlag > 1, one 7D record per
+scattering block with ords > 0 -/
+def isotxsNumRecords (chiFlag : Int) (ords : List Int) : Nat :=
+  2 + (if chiFlag > 1 then 1 else 0) + (ords.filter (fun o => o > 0)).length
+
+/-- IsotxsIO._computeNuclideRecordOffset: `[sum(recordsPerNuclide[0:ii]) for ii in range(len(lib))]` -/
+def recordOffsets (counts : List Nat) : List Nat :=
+  (List.range counts.length).map (fun ii => (counts.take ii).sum)
+
+/-- the same list in one pass (running total) -/
+def runningOffsets : Nat → List Nat → List Nat
+  | _, [] => []
+  | acc, c :: cs => acc :: runningOffsets (acc + c) cs
+
+/-! ## record schemas: the field combinators every format's `readWrite()` is built from
+
+A *schema* is first-order syntax for what a `Stream.readWrite()` does: records made of `rwInt`/`rwLong`/`rwFloat`/
+`rwDouble`/`rwString` calls, `rwList`/`rwMatrix` (counted repetition of one call), `if` on header values (optional
+fields / optional records) and `for` loops whose bounds are integer expressions over the header values read so far.
+`Rec.toRW` / `FileS.toFile` interpret a schema as a bidirectional `RW` / `File` program: integers are bound to names
+when they come back from the `rw*` call, so in a reading stream every later count, condition and loop bound is taken
+from what was read — exactly like `self._metadata[key] = record.rwInt(self._metadata[key])` followed by uses of
+`self._metadata[key]`. -/
+
+/-- the five `rw*` routines -/
+inductive Ty where
+  | i | l | f | d | s (len : Nat)
+  deriving DecidableEq, Repr
+
+/-- header values read so far (`self._metadata`, per-nuclide metadata, loop variables); a missing key reads 0 -/
+abbrev Env := List (String × Int)
+
+def Env.get (env : Env) (x : String) : Int :=
+  match env.find? (fun p => p.1 == x) with
+  | some p => p.2
+  | none => 0
+
+/-- integer expressions and conditions (0 = false) over the header values -/
+inductive E where
+  | lit (n : Int)
+  | var (x : String)
+  /-- `x[i]` -/
+  | at1 (x : String) (i : E)
+  /-- `x[i, j]` -/
+  | at2 (x : String) (i j : E)
+  | add (a b : E) | sub (a b : E) | mul (a b : E) | min (a b : E)
+  /-- Python `//` -/
+  | fdiv (a b : E)
+  | lt (a b : E) | le (a b : E) | eq (a b : E)
+  | and (a b : E) | or (a b : E) | not (a : E)
+  /-- `sum(body for v in range(n))` -/
+  | sum (n : E) (v : String) (body : E)
+  deriving Repr
+
+def key1 (x : String) (i : Int) : String := x ++ "[" ++ toString i ++ "]"
+def key2 (x : String) (i j : Int) : String := x ++ "[" ++ toString i ++ "," ++ toString j ++ "]"
+
+def b2i (b : Bool) : Int := if b then 1 else 0
+
+def E.eval : E → Env → Int
+  | .lit n, _ => n
+  | .var x, env => env.get x
+  | .at1 x i, env => env.get (key1 x (i.eval env))
+  | .at2 x i j, env => env.get (key2 x (i.eval env) (j.eval env))
+  | .add a b, env => a.eval env + b.eval env
+  | .sub a b, env => a.eval env - b.eval env
+  | .mul a b, env => a.eval env * b.eval env
+  | .min a b, env => Min.min (a.eval env) (b.eval env)
+  | .fdiv a b, env => Int.fdiv (a.eval env) (b.eval env)
+  | .lt a b, env => b2i (decide (a.eval env < b.eval env))
+  | .le a b, env => b2i (decide (a.eval env ≤ b.eval env))
+  | .eq a b, env => b2i (decide (a.eval env = b.eval env))
+  | .and a b, env => b2i (a.eval env != 0 && b.eval env != 0)
+  | .or a b, env => b2i (a.eval env != 0 || b.eval env != 0)
+  | .not a, env => b2i (a.eval env == 0)
+  | .sum n v body, env =>
+    (List.range (n.eval env).toNat).foldl (fun (acc : Int) (k : Nat) => acc + body.eval ((v, (k : Int)) :: env)) 0
+
+/-- where the integer returned by a `rwInt` is stored: `name` or `name[ix…]` (at most two indices) -/
+structure Bind where
+  name : String
+  ix : List E := []
+  deriving Repr
+
+def Bind.key (b : Bind) (env : Env) : String :=
+  match b.ix with
+  | [] => b.name
+  | [i] => key1 b.name (i.eval env)
+  | i :: j :: _ => key2 b.name (i.eval env) (j.eval env)
+
+/-- the body of one record -/
+inductive Rec where
+  | nil
+  /-- one `rw*` call; an integer may be stored under a name -/
+  | fld (t : Ty) (bind : Option Bind) (rest : Rec)
+  /-- `rwList` / `rwMatrix` / a comprehension of one call: `n` fields of type `t`, element k stored as `bind[k]` -/
+  | rep (n : E) (t : Ty) (bind : Option String) (rest : Rec)
+  /-- `rwString(val, length)` with a computed length -/
+  | strv (len : E) (rest : Rec)
+  /-- `if c: body` -/
+  | opt (c : E) (body rest : Rec)
+  /-- `for v in range(n): body` (inside one record) -/
+  | loop (n : E) (v : String) (body rest : Rec)
+  deriving Repr
+
+/-- a file: records, optional records, counted loops of records -/
+inductive FileS where
+  | nil
+  | one (r : Rec) (rest : FileS)
+  | opt (c : E) (body rest : FileS)
+  /-- `for v in range(n): body`; what an iteration binds is local to it (per-nuclide / per-region metadata) -/
+  | loop (n : E) (v : String) (body rest : FileS)
+  deriving Repr
+
+/-- a value handed to / returned by a `rw*` call: an integer, a 32/64-bit real pattern, or text -/
+inductive Val where
+  | i (v : Int) | n (v : Nat) | s (b : Bytes)
+  deriving Repr, DecidableEq
+
+def Val.int : Val → Int
+  | .i v => v | .n v => v | .s _ => 0
+def Val.nat : Val → Nat
+  | .n v => v | .i v => v.toNat | .s _ => 0
+def Val.str : Val → Bytes
+  | .s b => b | _ => []
+
+/-- the routines of one record class (binary or ASCII) -/
+structure Codecs where
+  ci : Codec Int
+  cl : Codec Int
+  cf : Codec Nat
+  cd : Codec Nat
+  cs : Nat → Codec Bytes
+
+def binaryCodecs : Codecs := { ci := int32, cl := int64, cf := bits32, cd := bits64, cs := str }
+
+/-- the Ascii record classes (they have no `rwLong`: `cl` is the integer field, and no ASCII statement is made about
+schemas that use `Ty.l`) -/
+def asciiCodecs (parse : Bytes → Option Nat) : Codecs :=
+  { ci := asciiInt, cl := asciiInt, cf := asciiReal parse 4, cd := asciiReal parse 8, cs := asciiStr }
+
+/-- interpreter state threaded through a record: header values, values still to be written (ignored by a reading
+stream), values seen so far (most recent first) -/
+abbrev Kont (α : Type) := Env → List Val → List Val → RW α
+
+def bindInt (env : Env) (key : Option String) (x : Int) : Env :=
+  match key with
+  | some k => (k, x) :: env
+  | none => env
+
+/-- one `rw*` call: the value to write is the next one of the container (what a reading stream passes is ignored);
+what the call RETURNS is stored and threaded on -/
+def fldRW {α} (cs : Codecs) (t : Ty) (key : Option String) (env : Env) (inp acc : List Val) (k : Kont α) : RW α :=
+  let v := inp.head?.getD (.i 0)
+  match t with
+  | .i => .prim cs.ci v.int (fun x => k (bindInt env key x) inp.tail (.i x :: acc))
+  | .l => .prim cs.cl v.int (fun x => k (bindInt env key x) inp.tail (.i x :: acc))
+  | .f => .prim cs.cf v.nat (fun x => k env inp.tail (.n x :: acc))
+  | .d => .prim cs.cd v.nat (fun x => k env inp.tail (.n x :: acc))
+  | .s len => .prim (cs.cs len) v.str (fun x => k env inp.tail (.s x :: acc))
+
+/-- the loop variable's new value replaces its previous one (so the header-value list does not grow with the number of
+iterations) -/
+def bindLoop (env : Env) (v : String) (i : Nat) : Env := (v, (i : Int)) :: env.eraseP (fun p => p.1 == v)
+
+/-- `n` calls of the same routine, element `i`, `i+1`, … -/
+def repRW {α} (cs : Codecs) (t : Ty) (key : Option String) : Nat → Nat → Env → List Val → List Val → Kont α → RW α
+  | 0, _, env, inp, acc, k => k env inp acc
+  | n + 1, i, env, inp, acc, k =>
+    fldRW cs t (key.map (fun x => key1 x i)) env inp acc (fun e i' a => repRW cs t key n (i + 1) e i' a k)
+
+/-- `for v in range(n): body`, iteration `i`, `i+1`, … -/
+def loopRW {α} (body : Env → List Val → List Val → Kont α → RW α) (v : String) :
+    Nat → Nat → Env → List Val → List Val → Kont α → RW α
+  | 0, _, env, inp, acc, k => k env inp acc
+  | n + 1, i, env, inp, acc, k =>
+    body (bindLoop env v i) inp acc (fun e i' a => loopRW body v n (i + 1) e i' a k)
+
+/-- a record schema as a bidirectional record program (continuation-passing) -/
+def Rec.toRW {α} (cs : Codecs) : Rec → Env → List Val → List Val → Kont α → RW α
+  | .nil, env, inp, acc, k => k env inp acc
+  | .fld t b rest, env, inp, acc, k =>
+    fldRW cs t (b.map (fun b => b.key env)) env inp acc (fun e i a => rest.toRW cs e i a k)
+  | .rep n t b rest, env, inp, acc, k =>
+    repRW cs t b (n.eval env).toNat 0 env inp acc (fun e i a => rest.toRW cs e i a k)
+  | .strv len rest, env, inp, acc, k =>
+    fldRW cs (.s (len.eval env).toNat) none env inp acc (fun e i a => rest.toRW cs e i a k)
+  | .opt c body rest, env, inp, acc, k =>
+    if c.eval env != 0 then body.toRW cs env inp acc (fun e i a => rest.toRW cs e i a k)
+    else rest.toRW cs env inp acc k
+  | .loop n v body rest, env, inp, acc, k =>
+    loopRW (body.toRW cs) v (n.eval env).toNat 0 env inp acc (fun e i a => rest.toRW cs e i a k)
+
+/-- state threaded from record to record -/
+abbrev St := Env × List Val × List Val
+
+def loopF {α} (body : St → (St → File α) → File α) (v : String) : Nat → Nat → St → (St → File α) → File α
+  | 0, _, st, k => k st
+  | n + 1, i, st, k =>
+    -- bindings made by an iteration are dropped at its end (only the data position and the values seen go on)
+    body (bindLoop st.1 v i, st.2) (fun st' => loopF body v n (i + 1) (st.1, st'.2) k)
+
+/-- a file schema as a bidirectional file program -/
+def FileS.toFile {α} (cs : Codecs) : FileS → St → (St → File α) → File α
+  | .nil, st, k => k st
+  | .one r rest, st, k =>
+    .record (r.toRW cs st.1 st.2.1 st.2.2 (fun e i a => .done (e, i, a))) (fun st' => rest.toFile cs st' k)
+  | .opt c body rest, st, k =>
+    if c.eval st.1 != 0 then body.toFile cs st (fun st' => rest.toFile cs st' k) else rest.toFile cs st k
+  | .loop n v body rest, st, k =>
+    loopF (body.toFile cs) v (n.eval st.1).toNat 0 st (fun st' => rest.toFile cs st' k)
+
+/-- the whole `readWrite()`: starts from the values that are not in the file (`env0`: variant flags, container
+lengths) and the container's values in call order; returns the header values and every value seen, in order, and
+how many container values were left over -/
+def schemaFile (cs : Codecs) (s : FileS) (env0 : Env) (inp : List Val) : File (Env × List Val × Nat) :=
+  s.toFile cs (env0, inp, []) (fun st => .done (st.1, st.2.2.reverse, st.2.1.length))
+
+/-- does a schema call `rwLong` anywhere -/
+def Rec.usesLong : Rec → Bool
+  | .nil => false
+  | .fld t _ rest => t == .l || rest.usesLong
+  | .rep _ t _ rest => t == .l || rest.usesLong
+  | .strv _ rest => rest.usesLong
+  | .opt _ body rest => body.usesLong || rest.usesLong
+  | .loop _ _ body rest => body.usesLong || rest.usesLong
+
+def FileS.usesLong : FileS → Bool
+  | .nil => false
+  | .one r rest => r.usesLong || rest.usesLong
+  | .opt _ body rest => body.usesLong || rest.usesLong
+  | .loop _ _ body rest => body.usesLong || rest.usesLong
+
+/-! ## the schemas of the CCCC formats (one per `readWrite()`), written with a few abbreviations -/
+
+namespace Schema
+
+instance : Add E := ⟨E.add⟩
+instance : Sub E := ⟨E.sub⟩
+instance : Mul E := ⟨E.mul⟩
+instance (k : Nat) : OfNat E k := ⟨E.lit k⟩
+
+def v (x : String) : E := .var x
+def gt (a b : E) : E := .lt b a
+def ge (a b : E) : E := .le b a
+def ne (a b : E) : E := .not (.eq a b)
+
+abbrev Item := Rec → Rec
+def mk (items : List Item) : Rec := items.foldr (fun f r => f r) .nil
+
+/-- `metadata[name] = record.rwInt(metadata[name])` (also `rwBool`: an int in the file) -/
+def int (name : String) : Item := .fld .i (some { name := name })
+/-- an integer nobody looks at again -/
+def int_ : Item := .fld .i none
+def intAt (name : String) (ix : List E) : Item := .fld .i (some { name := name, ix := ix })
+def real : Item := .fld .f none
+def dbl : Item := .fld .d none
+def str (len : Nat) : Item := .fld (.s len) none
+def ints (n : E) (bind : Option String := none) : Item := .rep n .i bind
+def reals (n : E) : Item := .rep n .f none
+def dbls (n : E) : Item := .rep n .d none
+def strs (n : E) (len : Nat) : Item := .rep n (.s len) none
+def when_ (c : E) (items : List Item) : Item := fun rest => .opt c (mk items) rest
+def for_ (n : E) (x : String) (items : List Item) : Item := fun rest => .loop n x (mk items) rest
+/-- `rwMatrix(contents, a, b)` / `rwDoubleMatrix` / `rwIntMatrix`: `for _ in range(a): for _ in range(b): func(...)` -/
+def matrix (t : Ty) (a b : E) : Item := for_ a "_m" [.rep b t none]
+/-- `rwImplicitlyTypedMap(keys, metadata)` -/
+def implicitMap (keys : List String) : List Item :=
+  keys.map (fun k => if implicitInt (k.front.toUpper) then int k else real)
+
+abbrev FItem := FileS → FileS
+def mkF (items : List FItem) : FileS := items.foldr (fun f r => f r) .nil
+def record (items : List Item) : FItem := .one (mk items)
+def fwhen (c : E) (items : List FItem) : FItem := fun rest => .opt c (mkF items) rest
+def ffor (n : E) (x : String) (items : List FItem) : FItem := fun rest => .loop n x (mkF items) rest
+
+/-- `jU - jL + 1` for `jL, jU = getBlockBandwidth(b + 1, nintj, nblok)` (b = 0-based block index) -/
+def blockWidth (b nintj nblok : E) : E :=
+  let x : E := E.fdiv (nintj - 1) nblok + 1
+  E.min nintj ((b + 1) * x) - b * x
+
+def geodstKeys : List String := ["IGOM", "NZONE", "NREG", "NZCL", "NCINTI", "NCINTJ", "NCINTK", "NINTI", "NINTJ",
+  "NINTK", "IMB1", "IMB2", "JMB1", "JMB2", "KMB1", "KMB2", "NBS", "NBCS", "NIBCS", "NZWBB", "NTRIAG", "NRASS", "NTHPT",
+  "NGOP1", "NGOP2", "NGOP3", "NGOP4"]
+
+/-- geodst.GeodstStream.readWrite -/
+def geodst : FileS := mkF [
+  record [str 28],
+  record (geodstKeys.map int),
+  fwhen (.and (gt (v "IGOM") 0) (.le (v "IGOM") 3)) [
+    record [dbls (v "NCINTI" + 1), ints (v "NCINTI")]],
+  fwhen (.and (.not (.and (gt (v "IGOM") 0) (.le (v "IGOM") 3))) (.and (ge (v "IGOM") 6) (.le (v "IGOM") 11))) [
+    record [dbls (v "NCINTI" + 1), dbls (v "NCINTJ" + 1), ints (v "NCINTI"), ints (v "NCINTJ")]],
+  fwhen (.and (.not (.and (gt (v "IGOM") 0) (.le (v "IGOM") 3)))
+      (.and (.not (.and (ge (v "IGOM") 6) (.le (v "IGOM") 11))) (ge (v "IGOM") 12))) [
+    record [dbls (v "NCINTI" + 1), dbls (v "NCINTJ" + 1), dbls (v "NCINTK" + 1),
+            ints (v "NCINTI"), ints (v "NCINTJ"), ints (v "NCINTK")]],
+  fwhen (.or (gt (v "IGOM") 0) (gt (v "NBS") 0)) [
+    record [reals (v "NREG"), reals (v "NBS"), reals (v "NBCS"), reals (v "NIBCS"), ints (v "NZWBB"),
+            ints (v "NZONE"), ints (v "NREG")]],
+  fwhen (gt (v "IGOM") 0) [
+    fwhen (.eq (v "NRASS") 0) [ffor (v "NCINTK") "k" [record [matrix .i (v "NCINTJ") (v "NCINTI")]]],
+    fwhen (.and (ne (v "NRASS") 0) (.eq (v "NRASS") 1)) [
+      ffor (v "NINTK") "k" [record [matrix .i (v "NINTJ") (v "NINTI")]]]]]
+
+def dif3d2D : List String := ["IPROBT", "ISOLNT", "IXTRAP", "MINBSZ", "NOUTMX", "IRSTRT", "LIMTIM", "NUPMAX", "IOSAVE",
+  "IOMEG1", "INRMAX", "NUMORP", "IRETRN", "IEDF1", "IEDF2", "IEDF3", "IEDF4", "IEDF5", "IEDF6", "IEDF7", "IEDF8",
+  "IEDF9", "IEDF10", "NOUTBQ", "I0FLUX", "NOEDIT", "NOD3ED", "ISRHED", "NSN", "NSWMAX", "NAPRX", "NAPRXZ", "NFMCMX",
+  "NXYSWP", "NZSWP", "ISYMF", "NCMRZS", "ISEXTR", "NPNO", "NXTR", "IOMEG2", "IFULL", "NVFLAG", "ISIMPL", "IWNHFL",
+  "IPERT", "IHARM"]
+
+/-- dif3d.Dif3dStream.readWrite: the 5D record is all ZCMRC (doubles), then all NZINTS (ints) -/
+def dif3d : FileS := mkF [
+  record [str 8, str 8, str 8, int "VERSION"],
+  record [.rep 11 (.s 8) none, int "MAXSIZ", int "MAXBLK", int "IPRINT"],
+  record (dif3d2D.map int),
+  record [dbls 30],
+  fwhen (ne (v "NUMORP") 0) [record [dbls (v "NUMORP")]],
+  fwhen (ne (v "NCMRZS") 0) [record [dbls (v "NCMRZS"), ints (v "NCMRZS")]]]
+
+def labelsKeys : List String := ["numZones", "numRegions", "numAreas", "numRegionAreaAssignments",
+  "numHalfHeightsDirection1", "numHalfHeightsDirection2", "numNuclideSets", "numZoneAliases", "numTrianglesPerHex",
+  "numHexagonalRings", "numControlRodChannels", "numControlRodBanks", "numAxialFineMeshBins", "maxControlRodBankTimes",
+  "maxControlRodsPerBank", "maxControlRodsMeshes", "maxControlRodPieces", "maxControlRodChannels",
+  "numBurnupDependentIsotopes", "maxBurnupDependentGroups", "maxBurnupPolynomialOrder", "modelDimensions"]
+
+/-- labels.LabelsStream.readWrite (the control-rod and burn-up records raise NotImplementedError: not in the schema) -/
+def labels : FileS := mkF [
+  record [str 8, str 8, str 8, int "version"],
+  record (labelsKeys.map int ++ [ints 2]),
+  record [strs (v "numZones") 8, strs (v "numRegions") 8, strs (v "numAreas") 8, strs (v "numRegionAreaAssignments") 8],
+  fwhen (.or (gt (v "numHalfHeightsDirection1") 0) (gt (v "numHalfHeightsDirection2") 0)) [
+    record [reals (v "numHalfHeightsDirection1"), reals (v "numHalfHeightsDirection1"),
+            reals (v "numHalfHeightsDirection2"), reals (v "numHalfHeightsDirection2")]],
+  fwhen (gt (v "numNuclideSets") 1) [record [strs (v "numNuclideSets") 8]],
+  fwhen (gt (v "numZoneAliases") 0) [record [strs (v "numZoneAliases") 8]]]
+
+/-- pwdint.PwdintStream.readWrite -/
+def pwdint : FileS := mkF [
+  record [str 8, str 6, str 6, int "version", int "mult"],
+  record (implicitMap ["TIME", "POWER", "VOL", "NINTI", "NINTJ", "NINTK", "NCY", "NBLOK"]),
+  ffor (v "NINTK") "k" [ffor (v "NBLOK") "b" [
+    record [matrix .f (blockWidth (v "b") (v "NINTJ") (v "NBLOK")) (v "NINTI")]]]]
+
+/-- rtflux.RtfluxStream / AtfluxStream.readWrite (NDIM = 1 raises NotImplementedError, NDIM < 1 ValueError) -/
+def rtflux : FileS := mkF [
+  record [str 28],
+  record (implicitMap ["NDIM", "NGROUP", "NINTI", "NINTJ", "NINTK", "ITER", "EFFK", "POWER", "NBLOK"]),
+  fwhen (ge (v "NDIM") 2) [
+    ffor (v "NGROUP") "g" [ffor (v "NINTK") "k" [ffor (v "NBLOK") "b" [
+      record [matrix .d (blockWidth (v "b") (v "NINTJ") (v "NBLOK")) (v "NINTI")]]]]]]
+
+/-- rzflux.RzfluxStream.readWrite -/
+def rzflux : FileS := mkF [
+  record [str 28],
+  record (implicitMap ["TIME", "POWER", "VOL", "EFFK", "EIVS", "DKDS", "TNL", "TNA", "TNSL", "TNBL", "TNBAL", "TNCRA",
+    "X1", "X2", "X3", "NBLOK", "ITPS", "NZONE", "NGROUP", "NCY"]),
+  ffor (v "NBLOK") "b" [record [matrix .f (blockWidth (v "b") (v "NZONE") (v "NBLOK")) (v "NGROUP")]]]
+
+/-- fixsrc.FIXSRC.readWrite -/
+def fixsrc : FileS := mkF [
+  record [str 24, int "fileId"],
+  record (["itype", "ndim", "ngroup", "ninti", "nintj", "nintk", "idists", "ndcomp", "nscomp", "nedgi", "nedgj",
+           "nedjk", "nblok"].map int),
+  ffor (v "ngroup") "g" [ffor (v "nintk") "z" [record [for_ (v "nintj") "j" [dbls (v "ninti")]]]]]
+
+def nhfluxKeys : List String := ["ndim", "ngroup", "ninti", "nintj", "nintk", "iter", "effk", "power", "nSurf", "nMom",
+  "nintxy", "npcxy", "nscoef", "itrord", "iaprx", "ileak", "iaprxz", "ileakz", "iorder"]
+
+def idums (n : Nat) : List String :=
+  (List.range n).map (fun e => if e + 1 < 10 then "IDUM0" ++ toString (e + 1) else "IDUM" ++ toString (e + 1))
+
+/-- nhflux.NhfluxStream / NafluxStream (+ Variant).readWrite; not in the file: `variantFlag`, `numDataSetsToRead` -/
+def nhflux : FileS :=
+  let nExtCur : E := v "npcxy" - v "nintxy" * v "nSurf"
+  mkF [
+  record [str 28],
+  fwhen (v "variantFlag") [
+    record (implicitMap (nhfluxKeys ++ ["npcbdy", "npcsym", "npcsec", "iwnhfl", "nMoms"] ++ idums 6))],
+  fwhen (.not (v "variantFlag")) [record (implicitMap (nhfluxKeys ++ idums 11))],
+  record [matrix .i (v "nintxy") (v "nSurf"),
+          when_ (v "variantFlag") [ints (v "npcbdy")],
+          when_ (.not (v "variantFlag")) [ints nExtCur],
+          ints (v "nintxy"),
+          when_ (v "variantFlag") [ints (v "npcsym" + v "npcsec"), ints (v "npcsym" + v "npcsec")]],
+  ffor (v "numDataSetsToRead") "n" [ffor (v "ngroup") "g" [
+    ffor (v "nintk") "z" [
+      record [matrix .d (v "nintxy") (v "nMom"),
+              when_ (.and (v "variantFlag") (gt (v "nMoms") 0)) [matrix .d (v "nintxy") (v "nMoms")]]],
+    fwhen (ne (v "iwnhfl") 1) [
+      ffor (v "nintk") "z" [
+        record [for_ (v "nintxy") "i" [for_ (v "nSurf") "j" [dbls (v "nscoef")]],
+                for_ nExtCur "j" [dbls (v "nscoef")]]],
+      ffor (v "nintk" + 1) "z" [
+        record [for_ 2 "j" [for_ (v "nintxy") "i" [dbls (v "nscoef")]]]]]]]]
+
+/-- pmatrx.PmatrxIO.readWrite: the number of production-matrix records of a nuclide is ITS heading's
+maxScatteringOrder (`nuc.maxScatteringOrder`), not the file's (`maxScatteringOrder`) -/
+def pmatrx : FileS := mkF [
+  record [int "numberCollapsingSpatialRegions", int "numGammaGroups", int "numNeutronGroups", int "hasInPlateData",
+          int "numNucs", int "hasDoseConversionFactor", int "maxScatteringOrder", int "maxNumberOfCompositions",
+          int "maxMaterials", int "maxNumberOfRegions", int "maxNumberOfCollapsingRegions", int "_dummy1", int "_dummy2"],
+  record [reals (v "numNeutronGroups"), real, reals (v "numGammaGroups"), real],
+  fwhen (v "hasDoseConversionFactor") [record [reals (v "numNeutronGroups"), reals (v "numGammaGroups")]],
+  record [strs (v "numNucs") 8, ints (v "numNucs")],
+  ffor (v "numNucs") "nuc" [
+    record [int "nuc.hasNeutronHeatingAndDamage", int "nuc.maxScatteringOrder", int "nuc.hasGammaHeating",
+            int "nuc.numberNeutronXS", int "nuc.collapsingRegionNumber"],
+    fwhen (v "nuc.hasNeutronHeatingAndDamage") [record [reals (v "numNeutronGroups"), reals (v "numNeutronGroups")]],
+    ffor (v "nuc.numberNeutronXS") "x" [record [reals (v "numNeutronGroups"), int_, int_]],
+    fwhen (v "nuc.hasGammaHeating") [record [reals (v "numGammaGroups")]],
+    ffor (v "nuc.maxScatteringOrder") "lrd" [record [matrix .f (v "numNeutronGroups") (v "numGammaGroups")]]]]
+
+/-- dlayxs.DlayxsIO.readWrite; not in the file: `labelLength` (the writer's `len(label)`, the reader takes the
+record's count), `numPad` (`len(dummy2)`; the reader takes `(numBytes - byteCount) // 4`), `numPrecursorGroups` -/
+def dlayxs : FileS := mkF [
+  record [.strv (v "labelLength")],
+  record [int "numEnergyGroups", int "numNuclides", int "numFamilies", int "dummy"],
+  record [strs (v "numNuclides") 8, reals (v "numFamilies"), matrix .f (v "numFamilies") (v "numEnergyGroups"),
+          reals (v "numEnergyGroups"), real, ints (v "numNuclides") (some "nkfam"), ints (v "numNuclides"),
+          strs (v "numPad") 4],
+  ffor (v "numNuclides") "ii" [
+    record [matrix .f (.at1 "nkfam" (v "ii")) (v "numEnergyGroups"), ints (v "numPrecursorGroups")]]]
+
+/-- isotxs.IsotxsIO.readWrite and gamiso._GamisoIO (identical field sequence); fileWideChiFlag > 1 and
+chiFlag > 1 raise NotImplementedError -/
+def isotxs : FileS :=
+  let ng : E := v "numGroups"
+  let msb : E := v "maxScatteringBlocks"
+  let x : E := E.fdiv (ng - 1) (v "subblockingControl") + 1
+  let jl : E := v "sb" * x + 1
+  let ju : E := E.min ng ((v "sb" + 1) * x)
+  mkF [
+  record [str 24, int "fileId"],
+  record [int "numGroups", int "numNucs", int "maxUpScatterGroups", int "maxDownScatterGroups",
+          int "maxScatteringOrder", int "fileWideChiFlag", int "maxScatteringBlocks", int "subblockingControl"],
+  record [str 96, strs (v "numNucs") 8, when_ (.eq (v "fileWideChiFlag") 1) [reals ng], reals ng, reals ng, real,
+          ints (v "numNucs")],
+  ffor (v "numNucs") "nuc" [
+    record ([str 8, str 8, str 8, reals 6] ++
+      ["classif", "chiFlag", "fisFlag", "nalph", "np", "n2n", "nd", "nt", "ltot", "ltrn", "strpd"].map int ++
+      [ints msb, ints msb (some "ords"),
+       for_ msb "n" [for_ ng "j" [intAt "jband" [v "j", v "n"]]],
+       for_ msb "n" [for_ ng "j" [intAt "jj" [v "j", v "n"]]]]),
+    record [matrix .f (v "ltrn") ng, matrix .f (v "ltot") ng, reals ng,
+            when_ (gt (v "fisFlag") 0) [reals ng, reals ng],
+            when_ (.eq (v "chiFlag") 1) [reals ng],
+            when_ (v "nalph") [reals ng], when_ (v "np") [reals ng], when_ (v "n2n") [reals ng],
+            when_ (v "nd") [reals ng], when_ (v "nt") [reals ng],
+            when_ (gt (v "strpd") 0) [matrix .f (v "strpd") ng]],
+    ffor msb "n" [ffor (v "subblockingControl") "sb" [
+      fwhen (gt (.at1 "ords" (v "n")) 0) [
+        record [for_ (.at1 "ords" (v "n")) "o" [
+          for_ (ju - jl + 1) "gg" [reals (.at2 "jband" (v "gg" + jl - 1) (v "n"))]]]]]]]]
+
+/-- compxs._CompxsIO.readWrite (file-wide chi and delayed-neutron families cannot be written or read by the code:
+findings compxs-2d-record-*; they are not in the schema) -/
+def compxs : FileS :=
+  let ng : E := v "numGroups"
+  let nsc : E := .at1 "nup" (v "g") + 1 + .at1 "ndn" (v "g")
+  let nfam : E := .at1 "compFam" (v "r")
+  mkF [
+  record (["numComps", "numGroups", "fileWideChiFlag", "numFissComps", "maxUpScatterGroups", "maxDownScatterGroups",
+           "numDelayedFam", "maxScatteringOrder", "reservedFlag1", "reservedFlag2"].map int),
+  record [dbls ng, dbls ng, dbl, ints (v "numComps") (some "compFam")],
+  ffor (v "numComps") "r" [
+    record [int "chiFlag", ints ng (some "nup"), ints ng (some "ndn"), when_ nfam [ints nfam]],
+    ffor ng "g" [
+      record [dbls 4, when_ (v "chiFlag") [dbl, dbl, dbls (v "chiFlag")], dbls nsc, dbls 7,
+              when_ nfam [ints nfam], dbl, for_ (v "maxScatteringOrder") "o" [dbls nsc]]]],
+  record [dbls (v "numComps"), dbls (v "numComps")]]
+
+/-- the schema of a format name -/
+def byName : String → Option FileS
+  | "GEODST" => some geodst
+  | "DIF3D" => some dif3d
+  | "LABELS" => some labels
+  | "PWDINT" => some pwdint
+  | "RTFLUX" => some rtflux
+  | "ATFLUX" => some rtflux
+  | "RZFLUX" => some rzflux
+  | "FIXSRC" => some fixsrc
+  | "NHFLUX" => some nhflux
+  | "NAFLUX" => some nhflux
+  | "PMATRX" => some pmatrx
+  | "DLAYXS" => some dlayxs
+  | "ISOTXS" => some isotxs
+  | "GAMISO" => some isotxs
+  | "COMPXS" => some compxs
+  | _ => none
+
+end Schema
+
 end ArmiVerif.Cccc
